@@ -233,6 +233,16 @@ package interpreter
 //@ cellinv H_interpreter_Function_Closure p: p != nil
 //@ cellinv H_interpreter_Interpreter_globals p: p != nil
 
+//@ func (f *Function) Arity [C07,C04]
+//@ inline
+//@ requires [recv] f != nil
+
+//@ func (f *Function) String [C07]
+//@ requires [recv] f != nil
+
+//@ func getLineNumber [C07]
+//@ requires [node] expr == nil || nodeOK(expr)
+
 //@ func NewFunction [C04,C07]
 //@ requires [args] declaration != nil && closure != nil
 //@ ensures [fresh] fresh(result) && result.Declaration == declaration && result.Closure == closure
